@@ -51,6 +51,8 @@ structure Client (α κ σ : Type) where
   expand : κ → List Nat → List α → σ → Option (σ × List (Instr α κ))
   /-- which pending removal the observed `remove` event performs (index into the pending list) -/
   pick : List Nat → List α → Option Nat
+  /-- the operation ended normally: what the process keeps (e.g. the table the call returned) -/
+  commit : σ → σ
 
 inductive Event (κ : Type) where
   /-- process `pid` (idle) starts an operation: `none` = take the lock, `some c` = client step -/
@@ -82,6 +84,10 @@ def rmsInstr (new : α) (pend : List α) : List (Instr α κ) :=
 def releaseIfDone (pid : Nat) (rest : List (Instr α κ)) (l : Option Nat) : Option Nat :=
   if rest.isEmpty && l == some pid then none else l
 
+/-- process record after a step: when its program is exhausted the operation has returned -/
+def mkProc (cl : Client α κ σ) (loc : σ) (is : List (Instr α κ)) : Proc α κ σ :=
+  { loc := if is.isEmpty then cl.commit loc else loc, instrs := is }
+
 /-- one hook point of process `pid`.  `working` = locks really exclude. -/
 def stepProc (working : Bool) (cl : Client α κ σ) (s : State α κ σ) (pid : Nat) (arg : List Nat) :
     Option (State α κ σ) :=
@@ -92,12 +98,12 @@ def stepProc (working : Bool) (cl : Client α κ σ) (s : State α κ σ) (pid :
     | [] => none
     | .lock :: rest =>
       if working && s.lock.isSome then none
-      else some { s with procs := s.procs.set pid { p with instrs := rest },
+      else some { s with procs := s.procs.set pid (mkProc cl p.loc rest),
                          lock := releaseIfDone pid rest (some pid) }
     | .add t olds :: rest =>
       let is := rmsInstr t (pending t olds) ++ rest
       some { heads := insertHead t s.heads, pub := t :: s.pub,
-             procs := s.procs.set pid { p with instrs := is },
+             procs := s.procs.set pid (mkProc cl p.loc is),
              lock := releaseIfDone pid is s.lock }
     | .rms new pend :: rest =>
       match cl.pick arg pend with
@@ -108,13 +114,13 @@ def stepProc (working : Bool) (cl : Client α κ σ) (s : State α κ σ) (pid :
         | some o =>
           let is := rmsInstr new (pend.eraseIdx i) ++ rest
           some { heads := removeHead o s.heads, pub := s.pub,
-                 procs := s.procs.set pid { p with instrs := is },
+                 procs := s.procs.set pid (mkProc cl p.loc is),
                  lock := releaseIfDone pid is s.lock }
     | .client c :: rest =>
       match cl.expand c arg s.heads p.loc with
       | none => none
       | some (loc', is) =>
-        some { s with procs := s.procs.set pid { loc := loc', instrs := is ++ rest },
+        some { s with procs := s.procs.set pid (mkProc cl loc' (is ++ rest)),
                       lock := releaseIfDone pid (is ++ rest) s.lock }
 
 def apply (working : Bool) (cl : Client α κ σ) (s : State α κ σ) : Event κ → Option (State α κ σ)
